@@ -138,6 +138,27 @@ out = ["",
        "  2^24 probe sweep moved into the quick tier — a few seconds each). All 9 are caught since. What",
        "  remains out of reach by construction: conjunctions of arbitrary magic constants over domains too large",
        "  to enumerate (e.g. a 28-byte routing table, a 250-byte body).",
+       "* Round 7 (the three focus areas whose round-6 agents had failed; 9 changes; tester description updated",
+       "  again): 3 of 9 caught as the checks stood. The six misses were once more coincidences of special",
+       "  literals the generators had not paired: a count byte consistent with a longer-than-fixed payload, the",
+       "  datagram bit with a non-zero completion code, an all-zero trailing vendor set, an all-0xFF UUID after",
+       "  a non-nil one, the nil UUID with entry handle 0xFF, an output buffer of 65 536 bytes. Added: counted",
+       "  payloads with consistent and inconsistent (count, length) pairs for every command, control byte x",
+       "  completion code products, all-zero / all-ones vendor sets in every position, UUID update orderings,",
+       "  products of special values over every pair of encoder parameters, output buffers of 65 535-131 072",
+       "  bytes. All 9 caught since. Over rounds 5-7 the pattern is stable: an informed adversary gets about",
+       "  two thirds of fresh changes past the quick tier *as it stands at that moment*, every one of them is",
+       "  caught after one more family is added, and the families keep getting cheaper to think of (pairs of",
+       "  special values) but can never be complete over unstructured 2^k domains.",
+       "* An independent reading audit of the model against the Rust source (a sub-agent, reading every non-test",
+       "  function against its Lean definition and running 75 000 lines of its own through both sides) found no",
+       "  input on which they disagree on return value, panic kind or file, EIDs, or bytes written on success,",
+       "  and pointed out: (1) views over a backing buffer *shorter than the field* panic in the code (index out",
+       "  of bounds) while the model's total accessors return 0 - outside C18's quantifier (raw values of each",
+       "  header's size) but a real limit of the C18 theorems' transfer to the code, now listed in the trusted",
+       "  base; (2) the buffer after a panic is not modelled (known; C02's projection no longer compares it);",
+       "  (3) `set_uuid` with a wrong length was never compared (now is, under C15); (4) a one-sided `bad-op`",
+       "  answer was dropped silently (now counts as a broken correspondence).",
        "* The Lean-side counterpart of these experiments is `Props/JudgeSound*.lean`: it proves that the judge",
        "  never says `fail` about the model. Proving it found three clauses where the judge was stricter than",
        "  the theorems on calls outside the documented argument shapes (routing entries that are not whole, a",
